@@ -767,6 +767,9 @@ func runPlatform(a Actor, srv *service.GoJT808, r *rec, bars *barriers) {
 					body = bytes.Repeat([]byte{0x55}, s.BodyFill)
 				}
 				am := service.NewActiveMessage(s.Key, consts.JT808CommandType(s.Cmd), body, time.Duration(s.TimeoutMs)*time.Millisecond)
+				if s.CallID%2 == 1 || s.TimeoutMs == 0 { // the README builds the value as a struct literal; both ways must behave alike
+					am = &service.ActiveMessage{Key: s.Key, Command: consts.JT808CommandType(s.Cmd), Body: body, OverTimeDuration: time.Duration(s.TimeoutMs) * time.Millisecond}
+				}
 				if s.ReuseMsg {
 					rk := fmt.Sprintf("%s/%04x", s.Key, s.Cmd)
 					reuseMu.Lock()
